@@ -11,7 +11,8 @@ CFG = dict(
                "fresh names and overwrite nothing (and without O_EXCL they can collide). The lock discipline itself is "
                "re-established on every run by vm_compute on the event lists lockscan extracts from /repo's current source "
                "(profile, internal/driver, internal/binutils), together with the obligation that every read-modify-write of "
-               "a guarded variable (configure, temp-file registry, copy-on-write tool configuration) lies in ONE acquire..release region.",
+               "a guarded variable (configure, temp-file registry, copy-on-write tool configuration) lies in ONE acquire..release region, "
+               "including check-then-act / snapshot-then-reset patterns; the temp-file registry never loses a registered file.",
     level_note="partial by nature: the theorems are about the lock discipline extracted syntactically from the source "
                "(objects are abstracted to one instance per guarded field; control flow is flattened under a fail-closed "
                "region rule); Go's memory model, sync.Mutex/Once/WaitGroup, the file system's O_EXCL and rename, and the "
@@ -24,7 +25,9 @@ CFG = dict(
     shard=120,
     rule="cases = concurrent runs of: k newTempFile calls on a directory with random pre-existing names; 2-3 threads of "
          "get/set/configure on the option store (all interleavings enumerated in Coq); k goroutines configuring DISTINCT options and "
-         "reading their own option back (lost-update detector); Write/WriteUncompressed/Copy on one "
+         "reading their own option back (lost-update detector); accepted/rejected configure sequences followed by option reads, "
+         "sequential (no mutex may stay held after an operation returned) and concurrent under a watchdog; files registered for deletion "
+         "while cleanups run, then the exit cleanup (no registered file left, no cleanup fails); Write/WriteUncompressed/Copy on one "
          "random profile; k addrInfo calls through ONE scripted addr2line / llvm-symbolizer pipe; concurrent ObjAddr on one "
          "ELF ObjFile; concurrent save/delete of named configs in one settings file; parallel fetch of up to 300 sources; "
          "mixed web UI requests; distinct = sha256 of the input term; non-trivial = at least two goroutines (and a non-empty profile)",
